@@ -65,3 +65,81 @@ def genotype_prior(g, freqs, F):
     if F is None:
         return multinomial_pmf(g, freqs)
     return dirmult_pmf(g, freqs, F)
+
+
+# ------------------------------------------------------------------ pedigree inheritance model
+
+
+def ms_sub(a, b):
+    """multiset difference a - b (sorted tuples); None when b is not contained in a"""
+    a = list(a)
+    for x in b:
+        if x not in a:
+            return None
+        a.remove(x)
+    return tuple(a)
+
+
+def submultisets(ms, k):
+    return sorted(set(itertools.combinations(sorted(ms), k)))
+
+
+def parent_gamete_pmf(g, parent, lam=0):
+    """P(gamete multiset g | parent multiset): random sampling of chromosome copies without
+    replacement, mixed with double reduction (a,a) at rate lam (diploid gametes only)"""
+    tau, ploidy = len(g), len(parent)
+    pc, gc = counts(parent), counts(g)
+    base = Fraction(1)
+    for a, d in gc.items():
+        base *= math.comb(pc.get(a, 0), d)
+    base /= math.comb(ploidy, tau)
+    if (not z3.is_expr(lam)) and lam == 0:
+        return z3.RealVal(base)
+    assert tau == 2
+    dr = Fraction(pc.get(g[0], 0), ploidy) if g[0] == g[1] else Fraction(0)
+    return (1 - lam) * z3.RealVal(base) + lam * z3.RealVal(dr)
+
+
+def pop_gamete_pmf(g, f):
+    return multinomial_pmf(g, f)
+
+
+def gamete_pmf(g, parent, lam, err, f):
+    """parent None = unknown parent (gamete from the population); empty gamete has probability 1"""
+    if len(g) == 0:
+        return z3.RealVal(1)
+    if parent is None:
+        return pop_gamete_pmf(g, f)
+    return (1 - err) * parent_gamete_pmf(g, parent, lam) + err * pop_gamete_pmf(g, f)
+
+
+def trio_pmf(progeny, P, Q, tau_p, tau_q, lam_p, lam_q, e_p, e_q, f):
+    progeny = tuple(sorted(progeny))
+    assert len(progeny) == tau_p + tau_q
+    tot = z3.RealVal(0)
+    for gp in submultisets(progeny, tau_p):
+        gq = ms_sub(progeny, gp)
+        tot = tot + gamete_pmf(gp, P, lam_p, e_p, f) * gamete_pmf(gq, Q, lam_q, e_q, f)
+    return tot
+
+
+def gamete_support(parent, tau, dr):
+    s = set(submultisets(parent, tau))
+    if dr and tau == 2:
+        s |= {(a, a) for a in parent}
+    return s
+
+
+def mendelian_valid(progeny, P, Q, tau_p, tau_q, dr_p=False, dr_q=False):
+    progeny = tuple(sorted(progeny))
+    sq = gamete_support(Q, tau_q, dr_q)
+    for gp in gamete_support(P, tau_p, dr_p):
+        gq = ms_sub(progeny, gp)
+        if gq is not None and tuple(sorted(gq)) in sq:
+            return True
+    return False
+
+
+def duo_mendelian_valid(progeny, P, tau, dr=False):
+    progeny = tuple(sorted(progeny))
+    return any(ms_sub(progeny, gp) is not None for gp in gamete_support(P, tau, dr))
